@@ -233,6 +233,43 @@ META5 = {
 }
 
 
+META6 = {
+    "C01": dict(file="bioscrape/types.pyx (Model.create_reaction copies the propensity dictionary after writing the default 'species' string into it)", needs="one dictionary object shared by two implicit mass-action reactions with different reactants", caught_by=["C01"],
+                first_run="missed by C01 (the same aliasing as r4/C04; C03 and C04 report it): every reaction had its own dictionary", strengthened="two-reaction structures that share one dictionary object"),
+    "C02": dict(file="bioscrape/types.pyx (PowerTerm takes the absolute value of its base)", needs="a power or quotient whose base is negative with an odd exponent", caught_by=["C02"], first_run="caught"),
+    "C03": dict(file="bioscrape/types.pyx (Model.__init__: the no-delay defaults are set once before the loop over reaction tuples)", needs="a plain 4-tuple reaction after a delayed 8-tuple in the constructor's list", caught_by=["C03"], first_run="caught"),
+    "C04": dict(file="bioscrape/types.pyx (MassActionPropensity.initialize counts a repeat on the entry added last)", needs="order >= 3 with a repeated reactant that is not adjacent to its first occurrence", caught_by=["C04"],
+                first_run="missed by C04 (the same place as r4/C06; C01 and C06 report it)", strengthened="C04 model with A+B+A and B+C+A+B mass-action reactions"),
+    "C05": dict(file="bioscrape/random.pyx (array_sum: pairwise summation above 8 entries drops the odd element)", needs="9, 11, 13, 17, 18, 19 ... reactions", caught_by=["C05"],
+                first_run="missed: the loops' bound is 3 reactions", strengthened="array_sum and sample_discrete over up to 33 (thorough: 129) symbolic propensities as a job of their own"),
+    "C06": dict(file="bioscrape/simulator.pyx (SafeModelCSimInterface.compute_stochastic_propensities: the reactant cursor is reset once, not per reaction)", needs="safe + stochastic, a later reaction with a non-mass-action rate lacking its reactant", caught_by=["C06"], first_run="caught"),
+    "C07": dict(file="bioscrape/simulator.pyx (DeterministicSimulator._helper_simulate applies the rules to the initial state before integrating as well)", needs="deterministic mode + rules for which two passes differ from one", caught_by=["C07"],
+                first_run="missed by C07 (C09 reports it)", strengthened="C09's deterministic row obligations are part of C07; first-row replay with self-referential rules"),
+    "C08": dict(file="bioscrape/simulator.pyx (ModelCSimInterface.__init__ copies the initial state)", needs="interface built, then set_species, then a run through that interface", caught_by=["C08"], first_run="caught (the same place as r3/C05)"),
+    "C09": dict(file="bioscrape/simulator.pyx (SSASimulator: rule_step not raised in the Lambda == 0 branch)", needs="plain stochastic mode + a dt / ode rule + a network that runs out of reactions after some firings", caught_by=["C09"],
+                first_run="counterexample found, not replayed (no scenario reaches total propensity 0 after firings): exit 2", strengthened="decay-to-exhaustion scenario in every stochastic mode"),
+    "C10": dict(file="bioscrape/types.pyx (Model.create_reaction: `=+ 1` for delayed products)", needs="a species twice among the delayed products, or delayed reactant and delayed product at once", caught_by=["C10"],
+                first_run="missed by C10 (C03 reports it)", strengthened="C03's stoichiometry obligations over delayed parts with up to two entries are part of C10; accounting replay"),
+    "C11": dict(file="bioscrape/types.pyx (StepTerm.volume_evaluate: `>= 0` became `> 0`)", needs="a Heaviside term whose argument is exactly 0, in a volume mode", caught_by=["C11"],
+                first_run="missed: the value of the step AT 0 is outside the claim (conventions differ)", strengthened="plain and volume-aware evaluation of a step agree whenever the argument has the same value (also at 0)"),
+    "C12": dict(file="bioscrape/sbmlutil.py (import_sbml sets parameters with set_params after the reactions: unknown names are ignored)", needs="a parameter no rate law, delay or rule refers to", caught_by=["C12"], first_run="caught"),
+    "C13": dict(file="bioscrape/types.pyx (sympy_recursion: rationals converted with C integer division)", needs="an exact fraction in a kinetic law or rule (division by an integer literal)", caught_by=["C13"],
+                first_run="missed: no generated formula contained a fraction", strengthened="generator wraps formulas in /2, 3*( )/4, ( )/3 + kg/2, 5/2*( )"),
+    "C14": dict(file="bioscrape/types.pyx (Model.create_reaction copies the propensity dictionary after writing the default 'species' string into it)", needs="one dictionary object shared by two implicit mass-action reactions with different reactants", caught_by=["C14"],
+                first_run="missed: one reaction per program", strengthened="programs whose reaction shares its dictionary with an earlier one"),
+    "C15": dict(file="bioscrape/inference.pyx (ModelLikelihood.get_initial_state returns the first initial condition when Nx0 == 1)", needs="several trajectories with different initial conditions and no parameter conditions", caught_by=["C15"], first_run="caught"),
+    "C16": dict(file="bioscrape/pid_interfaces.py (PIDInterface.__init__ strips the 'positive' flag from the caller's lists)", needs="a second interface built from the same prior dictionary", caught_by=["C16"],
+                first_run="missed: one interface per dictionary", strengthened="an earlier interface over the same dictionary object; the caller's dictionary is unchanged"),
+    "C17": dict(file="bioscrape/types.pyx (Schnitz.__setstate__ links the daughters only if the first slot is set)", needs="a record with its only daughter in the second slot", caught_by=["C17"],
+                first_run="missed: records had two daughters or none", strengthened="records with one daughter in either slot"),
+    "C18": dict(file="bioscrape/types.pyx (Model.set_params skips values that are np.isclose to the stored ones)", needs="a parameter of size >= 1000 (the finite-difference step is absolute)", caught_by=["C18"],
+                first_run="engine gap: np.isclose on symbolic values: exit 2", strengthened="npshim: isclose / allclose with numpy's definition over the reals; replay at large parameter values"),
+    "C19": dict(file="lineage/lineage.pyx (LineageSSASimulator.py_SimulateCellLineage creates its lineage and queues only when they are None)", needs="a second lineage simulation on the same simulator object", caught_by=["C19"],
+                first_run="missed: one call per simulator", strengthened="wrapper job: several calls on one simulator object each start from an empty lineage and queues of their own; replay"),
+    "C20": dict(file="bioscrape/simulator.pyx (ArrayDelayQueue.set_current_time also resets start_index)", needs="a queue advanced a non-multiple of its length, holding entries, then re-timed", caught_by=["C20"], first_run="caught"),
+}
+
+
 def main():
     results = {}
     rp = "/verif/seeded/results.json"
@@ -247,6 +284,8 @@ def main():
         rounds.append((META4, "/tmp/seed4_out", os.path.join(DST, "r4"), ("patch.diff", "demo.py", "notes.md")))
     if os.path.isdir("/tmp/seed5_out") or os.path.isdir(os.path.join(DST, "r5")):
         rounds.append((META5, "/tmp/seed5_out", os.path.join(DST, "r5"), ("patch.diff", "demo.py", "notes.md")))
+    if os.path.isdir("/tmp/seed6_out") or os.path.isdir(os.path.join(DST, "r6")):
+        rounds.append((META6, "/tmp/seed6_out", os.path.join(DST, "r6"), ("patch.diff", "demo.py", "notes.md")))
     for table, src_root, dst_root, files in rounds:
       for pid, m in sorted(table.items()):
         src = os.path.join(src_root, pid)
@@ -255,7 +294,7 @@ def main():
         for fn in files:
             if os.path.exists(os.path.join(src, fn)):
                 shutil.copy(os.path.join(src, fn), os.path.join(dst, fn))
-        key = pid if table is META else ("r2/" if table is META2 else "r3/" if table is META3 else "r4/" if table is META4 else "r5/") + pid
+        key = pid if table is META else ("r2/" if table is META2 else "r3/" if table is META3 else "r4/" if table is META4 else "r5/" if table is META5 else "r6/") + pid
         meta = dict(property=pid, changed=m["file"], needs_to_manifest=m["needs"], reported_by_checks=m["caught_by"],
                     first_run=m["first_run"], strengthened=m.get("strengthened", ""),
                     confirmed=["tools/try_seed.sh: (1) `git diff` of the sub-agent's worktree equals patch.diff; (2) the pinned suite run in that worktree: 54 passed; "
